@@ -19,10 +19,10 @@ Graphs == {"g1", "g2", "g3"}      \* g3: g1 with an invalid (negative) value on 
 Opts == {"o1", "o2", "o3", "o4", "omit"} \* o4: {optimize_with_safety_as_subset_constraints: True} (safe sequences join the model's OWN constraint list);  o3: {use_subgraph_scanning_lowerbound: True} (the scan window is set small)
 SOpts == {"s1", "omit"}
 Cons == {"c1", "c0", "omit"}        \* c0: an EMPTY caller-owned constraint list
-Igns == {"i1", "omit"}
+Igns == {"i1", "i0", "omit"}        \* i0: an EMPTY caller-owned ignore list
 Scals == {"e1", "omit"}             \* error-scaling dict (scale 0 on the edge that is invalid in g3)
 Slots == 1..3
-Pool == {"g1", "g2", "g3", "o1", "o2", "o3", "o4", "s1", "c1", "c0", "i1", "e1", "t1"}   \* t1: list of trusted edges, passed to every class accepting one
+Pool == {"g1", "g2", "g3", "o1", "o2", "o3", "o4", "s1", "c1", "c0", "i1", "i0", "e1", "t1"}   \* t1: list of trusted edges, passed to every class accepting one
 
 VARIABLES val,       \* pool object -> abstract value (initially the object's own name: "pristine")
           model,     \* slot -> [cls, g, o, s, c, i] or "none"
